@@ -1114,7 +1114,9 @@ void output_text(FILE *pfile)
             // If true, a <TAB> is inserted after #define.
             log_rule_B("force_tab_after_define");
 
-            if (options::force_tab_after_define())
+            if (  options::force_tab_after_define()
+               && !pc->GetNext()->IsNewline()         // a bare '#define': the tab would end the line
+               && pc->GetNext()->IsNotNullChunk())
             {
                add_char('\t');
             }
